@@ -108,6 +108,9 @@ PropBig(e) == e.ev = "big" =>
       /\ e.hdr = ItemHeader(c, e.n)
       /\ e.enclen = Len(e.hdr) + e.n * (IF c = 0 THEN 3 ELSE w)
       /\ e.runs = Runs3(e.n, ChunkOf(e.f, e.first), ChunkOf(e.f, e.mid), ChunkOf(e.f, e.last))
+      \* the complete message around the item: 4 length bytes, 10 header bytes, the item (C02: never empty, never partial)
+      /\ e.msglen >= 0 => (e.msglen = 14 + e.enclen /\ SubSeq(e.msghead, 1, 4) = BE4(10 + e.enclen)
+                           /\ SubSeq(e.msghead, 5, 14) = <<0, 7, 1, 1, 0, 0, 1, 2, 3, 4>>)
       /\ e.dec.done =>
            /\ e.dec.ok /\ e.dec.same
            /\ e.dec.nh = (IF c = 0 THEN e.n + 1 ELSE 1)
